@@ -278,6 +278,8 @@ impl World {
         if eut.done().is_some() || eut.credit().is_none() {
             return Err(Failure::new("harness-handshake", "harness/handshake", format!("handshake failed: {:?}", eut.done())));
         }
+        // the acknowledgement callback of the non-blocking API looks at the sink, as an application sending its next message would
+        eut.noblock().reenter.set(true);
         let seen = eut.packets().0.len();
         Ok(World {
             eut,
@@ -406,13 +408,17 @@ impl World {
         }
     }
 
-    fn create(&mut self, kind: SendKind, again: bool, own_id: u8) -> usize {
+    fn create(&mut self, kind: SendKind, again: bool, own_id: u8) -> Option<usize> {
+        // the non-blocking API may only be called on a ready sink (documented precondition)
+        if kind == SendKind::NoBlock && !self.eut.sink_ready() {
+            return None;
+        }
         let i = self.slots.len();
         let own = (own_id != 0).then_some(u16::from(own_id));
         let spec = SendSpec { kind: kind.clone(), topic: tag_topic(i), payload: vec![i as u8; 1 + i % 3], pid: own, user_prop: None };
         let fut = self.eut.send(spec);
         self.slots.push(Slot { again, own_id: own, ..Slot::new(kind, fut, self.step) });
-        i
+        Some(i)
     }
 
     /// "send again immediately on completion" loops
@@ -427,8 +433,9 @@ impl World {
                 break;
             }
             let kind = self.slots[i].kind.clone();
-            let j = self.create(kind, true, 0);
-            self.poll_slot(j);
+            if let Some(j) = self.create(kind, true, 0) {
+                self.poll_slot(j);
+            }
         }
     }
 
@@ -492,8 +499,9 @@ impl World {
             }
             Op::Send { kind, again, own_id } => {
                 if self.slots.len() < 60 {
-                    let i = self.create(kind, again, own_id);
-                    self.poll_slot(i);
+                    if let Some(i) = self.create(kind, again, own_id) {
+                        self.poll_slot(i);
+                    }
                 }
             }
             Op::Poll(k) => {
@@ -644,7 +652,7 @@ impl World {
                 }
             }
             Op::SendBad { kind, how } => {
-                if self.slots.len() < 60 {
+                if self.slots.len() < 60 && (kind != SendKind::NoBlock || self.eut.sink_ready()) {
                     let i = self.slots.len();
                     let v5 = self.eut.role().is_v5();
                     let mut spec = SendSpec { kind, topic: tag_topic(i), payload: vec![1], pid: None, user_prop: None };
